@@ -131,6 +131,13 @@ fn check_one<CS: BbsCiphersuite>(rep: &Report, ck: &str, c: &Case) -> CheckResul
 }
 
 fn check(rep: &Report, ck: &str, c: &Case) -> CheckResult {
+    // state kept between calls must not matter: half of the cases run after a warm-up history of
+    // unrelated legal calls (other suite, blind interface, other api_ids, refused operations)
+    let hs = c.msgs.items.iter().fold(c.key.ikm.seed as u64, |a, m| a.wrapping_mul(31).wrapping_add(m.seed as u64 + m.len as u64));
+    if hs % 2 == 0 {
+        crate::history::warmup(hs, 2 + (hs % 7) as usize);
+        rep.class("after-warm-up-history");
+    }
     // both suites must behave alike on the same inputs
     for s in [c.suite, c.suite.other()] {
         let mut c2 = c.clone();
@@ -247,7 +254,7 @@ pub fn run(ctx: &Ctx, rep: &Report) -> Meta {
     Meta {
         rule: "cases = (suite, key spec, header in {None, Some(b\"\"), bytes}, message vector) from edge-weighted sets, each run under BOTH suites; \
                oracle = sign Ok, verify Ok, 80-byte round trip equal and verifying, None/empty equivalence of header and message list (byte-identical signatures, cross verification); \
-               non-trivial = outside the fixture envelope (fixture key and L in {1,10} and header length in {0,16}); distinct by SHA-256 fingerprint of the case"
+               half of the cases are preceded by a warm-up history of unrelated legal calls on the same thread (other suite, blind interface, custom api_ids, refused operations); non-trivial = outside the fixture envelope (fixture key and L in {1,10} and header length in {0,16}); distinct by SHA-256 fingerprint of the case"
             .into(),
         assumptions: vec![
             "library linked as an ordinary dependency (cfg(not(test)), features bbsplus+bbsplus_blind+cl03)".into(),
